@@ -97,7 +97,7 @@ def build_frames(labelset, src_rgb, slots=None, multi_video=False):
 def write_labelset(tmpdir, labelset, src_rgb, name, slots=None, multi_video=False):
     frames, predicted = build_frames(labelset, src_rgb, slots, multi_video)
     sk = S.make_skeleton(K, EDGES)
-    return S.write_labels(tmpdir, frames, sk, name=name, embed=True, predicted=predicted)
+    return S.write_labels(tmpdir, frames, sk, name=name, embed=True, predicted=predicted, stale_invisible=True)
 
 
 def write_catalogue(tmpdir, types, src_rgb, name):
